@@ -85,7 +85,7 @@ name = c22.name
 # pure part
 
 def fmt_views(l):
-    return ";".join("%s:%s:%s" % (r, "~" if n is None else n, d) for r, n, d in l) or "-"
+    return ";".join("%s:%s:%s" % (r, "~" if n is None else n, "~" if d is None else d) for r, n, d in l) or "-"
 
 
 def gen_views(rng):
@@ -140,6 +140,15 @@ def well_nested(l, depth=0):
     return True
 
 
+def stepwise(l, n=1):
+    """depths go up by at most one per step (first depth <= n); Lean: `stepwise`"""
+    for v in l:
+        if v[2] > n:
+            return False
+        n = v[2] + 1
+    return True
+
+
 def pure_part(ctx, n):
     from breezy import log
     cases, lines, impls = [], [], []
@@ -174,6 +183,18 @@ def pure_part(ctx, n):
                 ctx.violation(case2, "_rebase_merge_depth leaves the top level at %d" % min(v[2] for v in r2))
         ctx.case(case2, nontrivial=bool(l) and r2 != l)
         cases.append(case2); lines.append("rebase " + fmt_views(l)); impls.append(fmt_views(r2))
+        # the specification the per-file oracle uses (enclosing_expected) is the one the theorems are about
+        # (`enclosingExpected`, `stepwise`): same function on arbitrary views
+        mod = sorted({int(v[0]) for v in l if ctx.rng.random() < 0.3})
+        inc = ctx.rng.random() < 0.5
+        case3 = dict(kind="enclosing", views=[list(v) for v in l], mod=mod, inc=inc)
+        ctx.case(case3, nontrivial=bool(mod) and any(v[2] for v in l))
+        cases.append(case3)
+        lines.append("enclosing %s %s %s" % (",".join(map(str, mod)) or "-", "T" if inc else "F", fmt_views(l)))
+        impls.append(fmt_views(enclosing_expected(l, set(mod), inc)))
+        case4 = dict(kind="stepwise", views=[list(v) for v in l])
+        ctx.case(case4, nontrivial=any(v[2] for v in l))
+        cases.append(case4); lines.append("stepwise " + fmt_views(l)); impls.append("T" if stepwise(l) else "F")
     ctx.diff(cases, lines, impls)
 
 
@@ -185,7 +206,7 @@ FILES = ["f0", "f1", "f2"]
 
 def gen_fworld(rng, nmax):
     n = rng.choice([1, 2, 3]) if rng.random() < 0.06 else rng.randrange(3, nmax + 1)
-    g = c22.gen_graph(rng, n)
+    g = c22.gen_graph(rng, n, left_ghosts=rng.random() < 0.4)
     gi = c22.GI(g)
     r = rng.random()
     if r < 0.03:
@@ -218,6 +239,13 @@ def gen_fworld(rng, nmax):
             g[k] = (tip,)
             tip = k
         n = len(g)
+    # ghosts as left-most parents only off the mainline (the branch's own history never runs into one)
+    x = tip
+    while x is not None and g[x]:
+        if g[x][0] not in g:
+            g[x] = tuple(g[x][1:])       # ... and look again: the next parent is the left-most one now
+            continue
+        x = g[x][0]
     # how often each file is touched by a plain commit: one busy file, one quiet file
     probs = dict(zip(FILES, rng.sample([0.5, 0.25, 0.07], 3)))
     # file contents per node: content[i][f]
@@ -280,6 +308,7 @@ class FWorld:
         t = MemoryTransport("memory:///c25-%d/" % FWorld.counter)
         bb = BranchBuilder(t, format=format_registry.make_controldir("2a"))
         bb.start_series()
+        depth_of = {}
         for k in sorted(g):
             ps = [name(g, p) for p in g[k]]
             cur = w["content"][str(k)]
@@ -289,10 +318,27 @@ class FWorld:
             else:
                 left = w["content"][str(g[k][0])]
                 actions = [("modify", (f, cur[f].encode())) for f in FILES if cur[f] != left[f]]
-            bb.build_snapshot(ps, actions, revision_id=name(g, k))
+            # BranchBuilder moves the branch pointer through find_distance_to_null, which fails on lines of
+            # development that start at a ghost: move it directly (the revno is only a counter here)
+            left = g[k][0] if g[k] and g[k][0] in g else None
+            self._move(bb, NULL if left is None else name(g, left), 0 if left is None else depth_of[left])
+            depth_of[k] = 1 if left is None else depth_of[left] + 1
+            bb.build_snapshot(ps, actions, revision_id=name(g, k), allow_leftmost_as_ghost=left is None and bool(g[k]))
         bb.finish_series()
         self.branch = bb.get_branch()
         self.branch.generate_revision_history(NULL if w["tip"] is None else name(g, w["tip"]))
+
+
+    @staticmethod
+    def _move(bb, rev_id, revno):
+        if bb._branch.last_revision() == rev_id:
+            return
+        with bb._branch.lock_write():
+            bb._branch.set_last_revision_info(revno, rev_id)
+        new_tree = bb._branch.create_memorytree()
+        new_tree.lock_write()
+        bb._tree.unlock()
+        bb._tree = new_tree
 
 
 def rid(g, x):
@@ -387,6 +433,16 @@ def model_line(w, q, extra=None):
     return None
 
 
+def spec_lines(q, extra):
+    """(model line, expected reply) pairs tying the Lean specification of the per-file filter to the oracle's:
+    the real complete view is stepwise, and `enclosingExpected` = enclosing_expected on it"""
+    views, mod, _ = extra
+    tf = lambda x: "T" if x else "F"
+    return [("stepwise " + fmt_views(views), tf(stepwise(views))),
+            ("enclosing %s %s %s" % (",".join(map(str, mod)) or "-", tf(q[2]), fmt_views(views)),
+             fmt_views(enclosing_expected(views, set(mod), q[2])))]
+
+
 def gen_requests(w, rng, per):
     g = c22.world_graph(w)
     n = len(g)
@@ -449,6 +505,15 @@ def oracle(w, gi, facts, q, res, results, extra_run=None, sres=None):
                 exp = ".".join(map(str, numbering[node]))
                 if n_ != exp:
                     bad.append("revision r%s is listed with revno %r, its dotted revno is %s" % (r, n_, exp))
+    if k == "linear" and res is not None:
+        for i_, (r, n_, d_) in enumerate(res):
+            if int(r) >= len(g):
+                # a ghost met on the left-hand walk: reported without revno and depth, and the walk ends there
+                if n_ is not None or d_ is not None or i_ != len(res) - 1:
+                    bad.append("the linear view reports the ghost r%s as %r (position %d of %d)"
+                               % (r, (n_, d_), i_ + 1, len(res)))
+            elif d_ != 0:
+                bad.append("the linear view lists r%s at depth %r" % (r, d_))
     if k in ("log", "filelog") and res:
         lv_ = q[4] if k == "log" else q[3]
         if any(v[2] is not None and v[2] < 0 for v in res):
@@ -484,17 +549,22 @@ def oracle(w, gi, facts, q, res, results, extra_run=None, sres=None):
                     if base is not None and res != [v for v in base if v[2] < lv]:
                         bad.append("levels=%d log is not the depth filter of the complete log" % lv)
         elif lim == 0 and not x and tip is not None:
-            # a mainline range
-            on = lambda y: y is None or y in lh
-            if on(s) and on(e) and (s is None or e is None or lh.index(s) <= lh.index(e)) and lv in (0, 1):
-                ee = tip if e is None else e
+            # a range whose end is any revision of the branch (mainline or dotted) and whose start is a
+            # left-hand ancestor of the end
+            ee = tip if e is None else e
+            lhe = gi.lefthand(ee) if ee in anc_tip else []
+            if lhe and (s is None or s in lhe) and lv in (0, 1):
+                kind_ = "mainline" if ee in lh else "dotted"
                 if lv == 1:
-                    lo = 0 if s is None else lh.index(s)
-                    exp = [nm(a) for a in lh[lo:lh.index(ee) + 1]]
+                    lo = 0 if s is None else lhe.index(s)
+                    exp = [nm(a) for a in lhe[lo:]]
                     if d == "r":
                         exp = exp[::-1]
                     if [v[0] for v in res] != exp:
-                        bad.append("levels=1 range %r..%r lists %r, expected %r" % (s, e, [v[0] for v in res], exp))
+                        bad.append("levels=1 %s range %r..%r lists %r, expected the left-hand ancestry %r"
+                                   % (kind_, s, e, [v[0] for v in res], exp))
+                    if any(v[2] != 0 for v in res):
+                        bad.append("levels=1 range %r..%r lists a revision at a depth other than 0: %r" % (s, e, res))
                 else:
                     keep = gi.panc(ee)
                     if s is not None:
@@ -503,11 +573,46 @@ def oracle(w, gi, facts, q, res, results, extra_run=None, sres=None):
                             keep = keep - gi.panc(lp)
                     exp = [nm(a) for a, dd, r_ in full if a in keep]
                     got = [v[0] for v in res]
-                    if d == "r" and got != exp:
-                        bad.append("range %r..%r lists %r, expected ancestry(end) - ancestry(left parent of start) = %r"
-                                   % (s, e, got, exp))
-                    if d == "f" and sorted(got) != sorted(exp):
-                        bad.append("forward range %r..%r lists %r, expected the set %r" % (s, e, sorted(got), sorted(exp)))
+                    if ee in lh:
+                        if d == "r" and got != exp:
+                            bad.append("range %r..%r lists %r, expected ancestry(end) - ancestry(left parent of start) = %r"
+                                       % (s, e, got, exp))
+                        if d == "f" and sorted(got) != sorted(exp):
+                            bad.append("forward range %r..%r lists %r, expected the set %r" % (s, e, sorted(got), sorted(exp)))
+                    else:
+                        # the end is a merged revision: what it merged from older lines of development is numbered
+                        # (and listed) with those lines, so only bounds are fixed: nothing outside
+                        # ancestry(end) - ancestry(left parent of start), all of the left-hand segment, in
+                        # merge-sorted order, and the same set in both directions
+                        it = iter(exp)
+                        if d == "r" and not all(x in it for x in got):
+                            bad.append("dotted range %r..%r lists %r, which is not a sub-sequence of ancestry(end) - "
+                                       "ancestry(left parent of start) in merge-sorted order %r" % (s, e, got, exp))
+                        if not set(got) <= set(exp):
+                            bad.append("dotted range %r..%r lists %r outside ancestry(end) - ancestry(left parent of start)"
+                                       % (s, e, sorted(set(got) - set(exp))))
+                        seg = [nm(a) for a in lhe[(0 if s is None else lhe.index(s)):]]
+                        if not set(seg) <= set(got):
+                            bad.append("dotted range %r..%r does not list the left-hand revisions %r"
+                                       % (s, e, sorted(set(seg) - set(got))))
+                        if d == "f" and extra_run is not None:
+                            _, rres = extra_run(("log", s, e, "r", lv, 0, False))
+                            if rres is not None and sorted(v[0] for v in rres) != sorted(got):
+                                bad.append("dotted range %r..%r: forward lists %r, reverse lists %r"
+                                           % (s, e, sorted(got), sorted(v[0] for v in rres)))
+                    if d == "f" and ee in lh and extra_run is not None:
+                        # forward = reverse-by-depth of the reverse listing of the same range (the end is on the
+                        # mainline: no depth rebasing on either side)
+                        _, rres = extra_run(("log", s, e, "r", lv, 0, False))
+                        if rres is not None and res != forest_rbd(rres):
+                            bad.append("forward range %r..%r is not the reverse-by-depth of the reverse listing: %r vs %r"
+                                       % (s, e, res, forest_rbd(rres)))
+        elif lim and tip is not None and extra_run is not None:
+            # a limit together with a range (or exclude_common_ancestry): the prefix of the unlimited request
+            _, ures = extra_run(("log", s, e, d, lv, 0, x))
+            if ures is not None and res != ures[:lim]:
+                bad.append("limit %d with the range %r..%r is not the prefix of the unlimited listing: %r vs %r"
+                           % (lim, s, e, res, ures[:lim]))
     if k in ("log", "calc") and sres == "E:StartNotLinearAncestor":
         bad.append(("the internal exception _StartNotLinearAncestor escapes from the request %r" % (q,), None))
     if k == "log" and q[1] is not None and q[2] is None and tip is not None and extra_run is not None:
@@ -528,6 +633,20 @@ def oracle(w, gi, facts, q, res, results, extra_run=None, sres=None):
                 bad.append(("per-file-graph log of %s (%s, levels=%d) lists %r; the revisions that modified it (%r) or "
                             "merge such a revision are %r" % (path, "forward" if d == "f" else "reverse", lv,
                                                               [v[0] for v in res], tr[1], [v[0] for v in exp]), None))
+    if k == "filelog" and q[4] and ("filelog", q[1], q[2], q[3], False) in results:
+        # one generator fails where the other lists the file's history
+        _, path, d, lv, deltas = q
+        other = results[("filelog", path, d, lv, False)]
+        if (res is None) != (other is None):
+            fam = None
+            if (res is None and sres == "E:NoSuchRevision"
+                    and any(g[a] and g[a][0] not in g for a in anc_tip)):
+                # Repository.get_revision_deltas asks for the tree of a ghost left-most parent
+                fam = "delta-matching-crashes-on-ghost-left-parent"
+            bad.append(("log of %s (%s, levels=%d): delta matching %s, the per-file graph %s"
+                        % (path, "forward" if d == "f" else "reverse", lv,
+                           ("fails with " + str(sres)) if res is None else "lists %r" % [v[0] for v in res],
+                           "fails" if other is None else "lists %r" % [v[0] for v in other]), fam))
     if k == "filelog" and res is not None:
         _, path, d, lv, deltas = q
         cont = w["content"]
@@ -637,9 +756,15 @@ def run_fworld(args):
                                       "merge a revision that did" % (q[1], mod, [v[0] for v in l], [v[0] for v in exp]), None))
                     if inc_missing(q, views, mod, l):
                         fails.append(("a revision that modified %s is not in the filtered list: %r" % (q[1], inc_missing(q, views, mod, l)), None))
+                    if not stepwise(views):
+                        fails.append(("the complete view of the branch is not stepwise (a depth goes up by more than one): %r"
+                                      % (views,), None))
             else:
                 fails = oracle(w, gi, facts, q, res, results, extra_run=lambda qq: run_request(b, g, qq), sres=s)
             out.append((q, s, fails, model_line(w, q, extra)))
+            if q[0] == "touch" and res is not None and res[0]:
+                for line, expect in spec_lines(q, res):
+                    out.append((("spec", line), expect, [], line))
     finally:
         b.unlock()
     return dict(w=w, merged=any(x.merge_depth > 0 for x in ms), results=out)
@@ -684,6 +809,12 @@ def run(ctx, nworlds=None):
         ctx.count("world-size:%d" % (len(w["g"]) // 3 * 3))
         ctx.count("world-merged" if r["merged"] else "world-linear")
         for q, s, fails, line in r["results"]:
+            if q[0] == "spec":
+                case = dict(kind="spec", line=line, expect=s)
+                ctx.case(case, nontrivial=r["merged"])
+                ctx.count("q:spec")
+                cases.append(case); lines.append(line); impls.append(s)
+                continue
             case = dict(g=w["g"], tip=w["tip"], content=w["content"], q=list(q))
             for f, fam in fails:
                 ctx.violation(case, f, family=fam)
@@ -693,6 +824,10 @@ def run(ctx, nworlds=None):
                 ctx.count(q[0] + "-" + s)
             if q[0] == "log":
                 ctx.count("log-levels:%d" % q[4]); ctx.count("log-dir:" + q[3])
+                if q[1] is not None or q[2] is not None:
+                    ctx.count("log-range-limit" if q[5] else "log-range")
+            if q[0] == "linear" and s.endswith(":~:~"):
+                ctx.count("linear-ghost-tuple")
             if line is not None:
                 cases.append(case); lines.append(line); impls.append(s)
     outs = ctx.model(lines)
@@ -711,6 +846,19 @@ def widen(ctx):
 
 def replay(ctx, case):
     from breezy import log
+    if case.get("kind") == "spec":
+        m = ctx.model([case["line"]])[0]
+        return dict(impl=case["expect"], model=m, agree=case["expect"] == m)
+    if case.get("kind") in ("enclosing", "stepwise"):
+        l = [tuple(v) for v in case["views"]]
+        if case["kind"] == "stepwise":
+            line, impl = "stepwise " + fmt_views(l), "T" if stepwise(l) else "F"
+        else:
+            line = "enclosing %s %s %s" % (",".join(map(str, case["mod"])) or "-", "T" if case["inc"] else "F",
+                                           fmt_views(l))
+            impl = fmt_views(enclosing_expected(l, set(case["mod"]), case["inc"]))
+        m = ctx.model([line])[0]
+        return dict(impl=impl, model=m, agree=impl == m)
     if case.get("kind") in ("rbd", "rebase"):
         l = [tuple(v) for v in case["views"]]
         if case["kind"] == "rbd":
